@@ -92,6 +92,14 @@ def run(ctx):
     import elayer as _E
     cprogs.append(_E.Prog("p_kf_const_param_type_name", "#[derive_ex::derive_ex(Clone)]\npub struct X<const Option: usize>(pub [u8; Option]);\n\npub fn replay(_h: &str, _b: &[u8]) -> (bool, String) { (true, String::new()) }\n", [],
                           {"describe": "const parameter named like a prelude type: #[derive_ex(Clone)] struct X<const Option: usize>([u8; Option]);"}))
+    # value-namespace names (unit structs, consts) spelled like the parameters of generated fns: a parameter is a pattern, an un-prefixed
+    # name there would be resolved as the item. Impl-item entry (all three base forms) and types
+    cprogs.append(_E.Prog("p_value_names", "#[derive(Clone)]\npub struct rhs;\n#[derive_ex::derive_ex(Add)]\nimpl core::ops::AddAssign<u8> for rhs { fn add_assign(&mut self, _r: u8) {} }\n"
+                          "pub const lhs: u8 = 1;\npub const this: u8 = 2;\npub const other: u8 = 3;\npub const source: u8 = 4;\npub const state: u8 = 5;\npub const f: u8 = 6;\n"
+                          "#[derive(Clone)]\npub struct P2;\n#[derive_ex::derive_ex(Mul, MulAssign)]\nimpl core::ops::Mul<u8> for P2 { type Output = P2; fn mul(self, _r: u8) -> P2 { self } }\n"
+                          "#[derive_ex::derive_ex(Clone, Debug, PartialEq, Eq, PartialOrd, Ord, Hash, Default, Add, AddAssign, Neg)]\npub struct V(pub i8);\n#[derive_ex::derive_ex(Clone, Debug, PartialEq, Eq, PartialOrd, Ord, Hash, Default)]\npub enum W { #[default] A, B(u8) }\n"
+                          "\npub fn replay(_h: &str, _b: &[u8]) -> (bool, String) { (true, String::new()) }\n", [],
+                          {"describe": "unit struct `rhs`, consts `lhs` `this` `other` `source` `state` `f` in scope of derived operator impls (impl items and types)"}))
     rejected = 0
     for ci in range(0, len(cprogs), 250):
         c = E.ECrate("C13", "s%02d" % (ci // 250), fam2.C20_SUPPORT, strict=True)
